@@ -15,9 +15,26 @@ GEN = []
 LEAN = ["Ymq.Props.C08"]
 AUDIT = "Ymq.Audit.C08"
 THEOREMS = [
-    "Ymq.C08.new_no_panic", "Ymq.C08.new_domain", "Ymq.C08.recip_key", "Ymq.C08.recip16_key",
-    "Ymq.C08.divmod64_spec", "Ymq.C08.modu63_spec", "Ymq.C08.modu16_spec", "Ymq.C08.modi64_spec",
+    "Ymq.C08.new_no_panic",
+    "Ymq.C08.new_domain",
+    "Ymq.C08.recip_key",
+    "Ymq.C08.recip16_key",
+    "Ymq.C08.divmod64_spec",
+    "Ymq.C08.modu63_spec",
+    "Ymq.C08.modu16_spec",
+    "Ymq.C08.modi64_spec",
     "Ymq.C08.mod_u128_spec",
+    "Ymq.C08.pow_mod_spec",
+    "Ymq.C08.pow_mod_spec_gt_one",
+    "Ymq.C08.sqrt_mod_sound",
+    "Ymq.C08.sqrt_mod_none",
+    "Ymq.C08.nth_root_spec",
+    "Ymq.C08.isqrt_spec",
+    "Ymq.C08.squfof_isqrt_spec",
+    "Ymq.C08.perfect_power_spec",
+    "Ymq.C08.inverter_new_spec",
+    "Ymq.C08.invert_spec",
+    "Ymq.C08.invert_spec_prime",
 ]
 HYPOTHESES = []
 PROFILES = ["release", "chk"]
